@@ -171,8 +171,10 @@ def r9_5(repo: Repo) -> RuleResult:
     # the fitted max_char_code is the running maximum over the training characters
     upd = [n for n in walk_no_nested(f.node) if isinstance(n, ast.Assign) and norm(n.targets[0]) == mcc]
     guards = [n for n in walk_no_nested(f.node) if isinstance(n, ast.If) and any(u is x for u in upd for x in ast.walk(n))]
-    ok = bool(upd) and all(isinstance(g.test, ast.Compare) and isinstance(g.test.ops[0], ast.Gt) and norm(g.test.comparators[0]) == mcc
-                           and norm(g.test.left) == norm(u.value) for g in guards for u in upd if any(u is x for x in ast.walk(g)))
+    from .common import rel_of
+
+    ok = bool(upd) and all(rel_of(g.test) == ("lt", mcc, norm(u.value)) and any(u is x for x in g.body)
+                           for g in guards for u in upd if any(u is x for x in ast.walk(g)))
     if ok and mcc in f.params:
         rr.ok(f, "max_char_code", "returned value is the parameter raised to the largest training character", upd[0].lineno)
     else:
